@@ -119,7 +119,7 @@ fn valid_under_party(w: &World, epoch: u64, p: usize, sig: &SingleSignature, msg
         return false;
     }
     let avk = b.compute_aggregate_verification_key();
-    let sws = &w.fixture.signers_with_stake()[p];
+    let sws = &w.signers_with_stake_of(&std::collections::BTreeSet::from([p]), epoch)[0];
     let vk = sws.verification_key_for_concatenation.clone().into_inner();
     sig.to_protocol_signature()
         .verify(&protocol_parameters().into(), &vk.vk, &sws.stake, &avk, msg.as_bytes())
